@@ -421,6 +421,10 @@ func init() {
 			"((draw a (i 0 9)) (draw v (custom (emit 5))))",
 			"((draw b (bool)) (draw a (i 0 99)) (if (istrue b) (draw v (custom (emit 7)))) (if (ge a 90) (fatal 1)))",
 			"((draw a (slice (i 0 9) 0 3)) (if (lenge a 2) (draw v (deferred (custom (emit 1))))))",
+			// … and with a failure of the property's own behind it: whichever of the two a run reaches, the generation run, the
+			// reproduce run (recording) and the replays reach the same one
+			"((draw a (i 0 99)) (draw v (custom (emit 7))) (if (ge a 50) (fatal 1)))",
+			"((draw a (i 0 99)) (if (ge a 30) (draw v (custom (emit 7)))) (if (ge a 60) (error 2)))",
 			// a state machine with an action that draws and then skips (its step is rejected, not retried): the runs Check bases
 			// its verdict on do not log, the presented replay does — both must read the bits the same way
 			"((repeat (act (emit 100) (draw x (i 0 9)) (if (ge x 5) (skip)) (emit 200)) (act (emit 101) (draw y (i 0 100)) (if (ge y 90) (fatal 2)) (emit 201))))",
